@@ -1,5 +1,6 @@
 import Gengo.Model.Namer
 import Gengo.Lemmas.Case
+import Gengo.Lemmas.Ident
 /-! # C14 – name strategies are deterministic, well-formed and compositional -/
 namespace Gengo.C14
 open Gengo Gengo.Namer
@@ -123,6 +124,29 @@ theorem private_lower (st : Strategy) (hp : st.isPublic = false) (parts : List S
   simp only [Bool.false_eq_true, if_false, Option.map_eq_some_iff] at h
   obtain ⟨d, _, rfl⟩ := h
   exact Str.lower_not_upper d
+
+/-! ### names of named types are legal identifiers -/
+open Gengo.Ident in
+/-- **named_is_identifier**: for a type name that is an identifier and a package path whose elements start with a letter
+and go on with letters, digits, `_`, `-` and `.` (after `filterDirs` has dropped ignored words and sanitised the rest), a
+prefix that is empty or an identifier and a suffix of identifier characters, the name of a named type is a Go
+identifier -/
+theorem named_is_identifier (st : Strategy) (pkg n : Str) (hn : isIdent n = true)
+    (hpkg : ∀ p ∈ Str.splitOn '/' pkg, pathElemOK p = true)
+    (hpre : st.pre = [] ∨ isIdent st.pre = true) (hpost : st.post.all identChar = true) :
+    ∃ s, name st (.named pkg n) = some s ∧ isIdent s = true := by
+  refine ⟨_, named_shape st pkg n, ?_⟩
+  have hall : ∀ p ∈ (((Str.splitOn '/' pkg).filter (fun p => !st.ignore.contains p)).map sanitizeDir) ++ [n], isIdent p = true := by
+    intro p hp
+    rcases List.mem_append.mp hp with h | h
+    · obtain ⟨q, hq, rfl⟩ := List.mem_map.mp h
+      exact sanitize_ident (hpkg q (List.mem_filter.mp hq).1)
+    · simp only [List.mem_singleton] at h; subst h; exact hn
+  apply join_ident st _ _ (fun p hp => hall p (List.mem_of_mem_drop hp)) hpre hpost
+  intro he
+  have hl := congrArg List.length he
+  simp only [lastK, List.length_drop, List.length_append, List.length_singleton, List.length_nil] at hl
+  omega
 
 /-! ### anonymous types: prefix and suffix exactly once, at the outside -/
 
@@ -349,5 +373,158 @@ example : name ⟨[], [], true, ["proto".toList], 2⟩ (.named "pkg/server/frobb
   simp only [name]; decide
 example : plural [] .ic "knife".toList = "Knives".toList := by decide
 example : plural [("Endpoints".toList, "endpoints".toList)] .ic "Endpoints".toList = "Endpoints".toList := by decide
+
+
+/-! non-vacuity: the hypotheses of `named_is_identifier` hold of an ordinary type -/
+example : Ident.isIdent "Pod".toList = true ∧ (∀ p ∈ Str.splitOn '/' "k8s.io/api/core/v1".toList, Ident.pathElemOK p = true) ∧
+    Ident.isIdent "Fake".toList = true := by decide
+
+/-! ### the memo: the same name on every call, whatever was named before (Model/Namer `nameM`) -/
+section memo
+variable [DecidableEq Ty]
+
+/-- every entry of the memo is the name the memo-free strategy gives -/
+def MemoOK (st : Strategy) (c : Memo) : Prop := ∀ t s, AL.lookup t c = some s → name st t = some s
+
+/-- `m` computes `x`, whatever (sound) memo it starts from, and leaves a sound memo -/
+def Sound (st : Strategy) {α : Type} (m : MemoM α) (x : Option α) : Prop :=
+  ∀ c, MemoOK st c → (m c).2 = x ∧ MemoOK st (m c).1
+
+theorem sound_pure (st : Strategy) {α : Type} (a : α) : Sound st (MemoM.pure a) (some a) :=
+  fun _ hc => ⟨rfl, hc⟩
+
+theorem sound_bind {st : Strategy} {α β : Type} {m : MemoM α} {f : α → MemoM β} {x : Option α} {y : α → Option β}
+    (hm : Sound st m x) (hf : ∀ a, Sound st (f a) (y a)) : Sound st (MemoM.bind m f) (x.bind y) := by
+  intro c hc
+  obtain ⟨h1, h2⟩ := hm c hc
+  unfold MemoM.bind
+  cases hmc : m c with
+  | mk c' r =>
+    rw [hmc] at h1 h2
+    simp only at h1 h2
+    cases r with
+    | none => subst h1; exact ⟨rfl, h2⟩
+    | some a => subst h1; exact hf a c' h2
+
+theorem sound_strip {st : Strategy} {m : MemoM Str} {x : Option Str} (hm : Sound st m x) :
+    Sound st (MemoM.strip st m) (x.bind (strip st.pre st.post)) :=
+  sound_bind hm (fun _ _ hc => ⟨rfl, hc⟩)
+
+theorem sound_memoized {st : Strategy} (t : Ty) {m : MemoM Str} (hm : Sound st m (name st t)) :
+    Sound st (memoized t m) (name st t) := by
+  intro c hc
+  unfold memoized
+  cases hl : AL.lookup t c with
+  | some s => exact ⟨(hc t s hl).symm, hc⟩
+  | none =>
+    obtain ⟨h1, h2⟩ := hm c hc
+    cases hmc : m c with
+    | mk c' r =>
+      rw [hmc] at h1 h2
+      simp only at h1 h2
+      cases r with
+      | none => exact ⟨h1, h2⟩
+      | some s =>
+        refine ⟨h1, ?_⟩
+        intro t' s' hl'
+        simp only [AL.lookup] at hl'
+        split at hl'
+        · rename_i he; cases hl'; rw [← he]; exact h1.symm
+        · exact h2 t' s' hl'
+
+omit [DecidableEq Ty] in
+theorem stripped_eq (st : Strategy) (t : Ty) : stripped st t = (name st t).bind (strip st.pre st.post) := by
+  unfold stripped; rfl
+
+theorem Sound.congr {st : Strategy} {α : Type} {m : MemoM α} {x y : Option α} (h : Sound st m x) (e : x = y) : Sound st m y := e ▸ h
+
+mutual
+/-- **memo_transparent** (one call): whatever sound memo a call starts from – whatever was named before, in whatever
+order – it returns the name the memo-free strategy gives (or panics where that does), and leaves a sound memo -/
+theorem nameM_sound (st : Strategy) : (t : Ty) → Sound st (nameM st t) (name st t)
+  | .named pkg n => by
+    unfold nameM
+    exact sound_memoized _ ((sound_pure st _).congr (by simp [name]))
+  | .builtin n => by
+    unfold nameM
+    exact sound_memoized _ ((sound_pure st _).congr (by simp [name]))
+  | .map k e => by
+    unfold nameM
+    refine sound_memoized _ (Sound.congr (sound_bind (sound_strip (nameM_sound st k)) fun a =>
+      sound_bind (sound_strip (nameM_sound st e)) fun b => sound_pure st _) ?_)
+    rw [← stripped_eq, ← stripped_eq]; simp [name]
+  | .slice e => by
+    unfold nameM
+    refine sound_memoized _ (Sound.congr (sound_bind (sound_strip (nameM_sound st e)) fun a => sound_pure st _) ?_)
+    rw [← stripped_eq]; simp [name]
+  | .array len e => by
+    unfold nameM
+    refine sound_memoized _ (Sound.congr (sound_bind (sound_strip (nameM_sound st e)) fun a => sound_pure st _) ?_)
+    rw [← stripped_eq]; simp [name]
+  | .pointer e => by
+    unfold nameM
+    refine sound_memoized _ (Sound.congr (sound_bind (sound_strip (nameM_sound st e)) fun a => sound_pure st _) ?_)
+    rw [← stripped_eq]; simp [name]
+  | .chan e => by
+    unfold nameM
+    refine sound_memoized _ (Sound.congr (sound_bind (sound_strip (nameM_sound st e)) fun a => sound_pure st _) ?_)
+    rw [← stripped_eq]; simp [name]
+  | .struct ms => by
+    unfold nameM
+    refine sound_memoized _ (Sound.congr (sound_bind (membersM_sound st ms) fun l => sound_pure st _) ?_)
+    simp [name]
+  | .iface methods => by
+    unfold nameM
+    exact sound_memoized _ ((sound_pure st _).congr (by simp [name]))
+  | .func ps rs => by
+    unfold nameM
+    refine sound_memoized _ (Sound.congr (sound_bind (allM_sound st ps) fun a =>
+      sound_bind (allM_sound st rs) fun b => sound_pure st _) ?_)
+    simp [name]
+  | .other kind => by
+    unfold nameM
+    exact sound_memoized _ ((sound_pure st _).congr (by simp [name]))
+theorem allM_sound (st : Strategy) : (ts : Tys) → Sound st (allM st ts) (strippedAll st ts)
+  | .nil => by unfold allM; exact (sound_pure st _).congr (by simp [strippedAll])
+  | .cons t ts => by
+    unfold allM
+    refine Sound.congr (sound_bind (sound_strip (nameM_sound st t)) fun a =>
+      sound_bind (allM_sound st ts) fun r => sound_pure st _) ?_
+    rw [← stripped_eq]; simp [strippedAll]
+theorem membersM_sound (st : Strategy) : (ms : Members) → Sound st (membersM st ms) (strippedMembers st ms)
+  | .nil => by unfold membersM; exact (sound_pure st _).congr (by simp [strippedMembers])
+  | .cons _ t ms => by
+    unfold membersM
+    refine Sound.congr (sound_bind (sound_strip (nameM_sound st t)) fun a =>
+      sound_bind (membersM_sound st ms) fun r => sound_pure st _) ?_
+    rw [← stripped_eq]; simp [strippedMembers]
+end
+
+/-- **memo_transparent**: any sequence of `Name` calls on one strategy object, starting from the empty memo, returns for
+every call the name the memo-free strategy gives for that type – the same name on every call, independently of which
+other types were named before and in what order -/
+theorem memo_transparent (st : Strategy) (ts : List Ty) :
+    ∀ c, MemoOK st c → (namesM st ts c).2 = ts.map (name st) ∧ MemoOK st (namesM st ts c).1 := by
+  induction ts with
+  | nil => intro c hc; exact ⟨rfl, hc⟩
+  | cons t ts ih =>
+    intro c hc
+    obtain ⟨h1, h2⟩ := nameM_sound st t c hc
+    obtain ⟨h3, h4⟩ := ih _ h2
+    simp only [namesM, List.map_cons]
+    exact ⟨by rw [h1, h3], h4⟩
+
+theorem memo_empty (st : Strategy) : MemoOK st [] := fun _ _ h => by simp [AL.lookup] at h
+
+/-- … in particular two orders of the same calls give every type the same name -/
+theorem naming_order_irrelevant (st : Strategy) (ts us : List Ty) (t : Ty) (ht : t ∈ ts) (hu : t ∈ us) :
+    ∃ i j : Nat, ((namesM st ts []).2)[i]? = some (name st t) ∧ ((namesM st us []).2)[j]? = some (name st t) := by
+  obtain ⟨i, hi⟩ := List.getElem?_of_mem ht
+  obtain ⟨j, hj⟩ := List.getElem?_of_mem hu
+  refine ⟨i, j, ?_, ?_⟩
+  · rw [(memo_transparent st ts [] (memo_empty st)).1, List.getElem?_map, hi]; rfl
+  · rw [(memo_transparent st us [] (memo_empty st)).1, List.getElem?_map, hj]; rfl
+
+end memo
 
 end Gengo.C14
